@@ -87,7 +87,11 @@ def ctype(tnode, tr=None):
     if "(" in q0:
         return T("fn")
     if tr is not None:
-        sb = tr.type_info(q0)
+        try:
+            sb = tr.type_info(q0)
+        except Unsupported:
+            # not an arithmetic type (e.g. a transparent union of object pointers): opaque aggregate
+            return T("struct", name=q0)
         return T("int", sb[0], sb[1])
     raise Unsupported("unknown type " + q)
 
@@ -233,7 +237,23 @@ class Translator:
         return self.field_ids[fname]
 
     # -- function acquisition
-    def get(self, cfile, fname, mode="fn", forced=False):
+    def get(self, cfile, fname, mode="fn", forced=False, loop=0, alias=None):
+        key = alias or fname
+        if mode == "rmwloop":
+            decl = astdump.get_function(cfile, fname)
+            if decl is None:
+                raise Unsupported("no definition of %s visible in %s" % (fname, cfile))
+            ft = FnTrans(self, cfile, decl, mode)
+            ft.loop_index = loop
+            try:
+                info = ft.translate()
+            except Unsupported as e:
+                raise Unsupported("%s#%d: %s" % (fname, loop, e))
+            info.coqname = sanitize(key)
+            info.text = info.text.replace("Definition %s " % sanitize(fname), "Definition %s " % sanitize(key), 1)
+            self.fns[key] = info
+            self.order.append(key)
+            return info
         if fname in self.fns:
             return self.fns[fname]
         if fname in self.failed:
@@ -337,7 +357,29 @@ class FnTrans:
             self.info.sites = self.sites
             self.info.text = ""
             return self.info
-        term = self.block([body], env, self.k_end)
+        if self.mode == "rmwloop":
+            # only the n-th os_atomic_rmw_loop of a (possibly large) function: its body as a function of the value
+            # read and of the free variables it mentions (they become parameters)
+            loops = []
+
+            def findall(n):
+                if self.is_rmw_node(n):
+                    loops.append(n)
+                    return
+                for c in n.get("inner", []):
+                    findall(c)
+            findall(body)
+            idx = self.loop_index
+            if idx >= len(loops):
+                raise Unsupported("%s has %d rmw loops, wanted #%d" % (self.info.name, len(loops), idx))
+            self.loop_only = True
+            self.mode = "rmw"
+            self.info.mode = "rmw"
+            self.line = loops[idx].get("line", self.line) or self.line
+            term = self.rmw_loop(loops[idx], env, lambda e, res: self.leaf_return("0" if res == "1" else "0", e))
+            body = loops[idx]
+        else:
+            term = self.block([body], env, self.k_end)
         # header
         ps = []
         plist = []
@@ -519,7 +561,11 @@ class FnTrans:
             self.err(s, "do-while loop")
         if kind == "GotoStmt":
             if self.mode == "rmw":
-                return "Restart"
+                L = self.in_loop_state
+                ex = "[" + "; ".join(L.get("extras", [])) + "]"
+                if self.goto_is_backward(s):
+                    return "Restart %s" % ex
+                return "NoCommit 2 %s" % ex
             self.err(s, "goto")
         if kind == "BreakStmt":
             if self.break_k:
@@ -837,6 +883,48 @@ class FnTrans:
         return k(e)
 
     # -------------------------------------------------------------- rmw loop
+    loop_only = False
+    loop_index = 0
+
+    def goto_is_backward(self, g):
+        """does this goto jump to a label that precedes it in the function text (a retry)?"""
+        target = g.get("targetLabelDeclId")
+        order = {}
+        cnt = [0]
+        gpos = [None]
+
+        def walk(n):
+            cnt[0] += 1
+            if n.get("kind") == "LabelStmt":
+                order[n.get("declId")] = cnt[0]
+            if n is g or (n.get("kind") == "GotoStmt" and n.get("id") == g.get("id")):
+                gpos[0] = cnt[0]
+            for c in n.get("inner", []):
+                walk(c)
+        walk(self.decl)
+        if gpos[0] is None:
+            raise Unsupported("goto not found in its function")
+        if target in order:
+            return order[target] < gpos[0]
+        # clang's JSON ids of label declarations are not always consistent: decide by position when unambiguous
+        before = [v for v in order.values() if v < gpos[0]]
+        after = [v for v in order.values() if v > gpos[0]]
+        if before and not after:
+            return True
+        if after and not before:
+            return False
+        raise Unsupported("goto with ambiguous target label (labels both before and after it)")
+
+    def is_rmw_node(self, n):
+        if n.get("kind") == "StmtExpr":
+            cs = n["inner"][0]
+            inner = cs.get("inner", [])
+            if len(inner) >= 4 and inner[0].get("kind") == "DeclStmt":
+                vd = inner[0]["inner"][0]
+                if vd.get("name") == "_result" and any(x.get("kind") == "DoStmt" for x in inner):
+                    return True
+        return False
+
     def find_rmw(self, node):
         """returns the StmtExpr node of an expanded os_atomic_rmw_loop inside node, if any"""
         n = node
@@ -932,6 +1020,41 @@ class FnTrans:
         inner = cs.get("inner", [])
         # give-up: ({ fence(m); expr; __builtin_unreachable(); })
         if inner and inner[0].get("kind") == "CallExpr" and callee_name(inner[0]) == "__c11_atomic_thread_fence" \
+                and self.mode == "rmw" and self.loop_only:
+            # loop-only translation: the give-up block leaves the loop; record its atomic operations and how it leaves
+            extras = []
+            o = skip_paren(inner[0]["inner"][1])
+            order = ORDER.get(o.get("referencedDecl", {}).get("name"), "SeqCst")
+            if order != "Relaxed":
+                extras.append("AFence %s" % order)
+            term = [None]
+            tnode = [None]
+
+            def scan(n):
+                k_ = n.get("kind")
+                if k_ == "AtomicExpr":
+                    kind = ATOMIC_KIND.get(n.get("atomic"))
+                    fld = self.atomic_field(n["inner"][0])
+                    od = ORDER.get(skip_paren(n["inner"][1]).get("referencedDecl", {}).get("name"), "SeqCst")
+                    fid = self.tr.field_id(fld)
+                    if kind in AOP_OF_KIND:
+                        extras.append("%s %d 0 %s" % (AOP_OF_KIND[kind], fid, od))
+                    else:
+                        extras.append("AOther %d %s" % (fid, od))
+                if term[0] is None and k_ in ("ReturnStmt", "GotoStmt", "BreakStmt"):
+                    term[0] = k_
+                    tnode[0] = n
+                for c in n.get("inner", []):
+                    scan(c)
+            for st in inner[1:]:
+                scan(st)
+            ex = "[" + "; ".join(extras) + "]"
+            if term[0] == "GotoStmt":
+                if self.goto_is_backward(tnode[0]):
+                    return "Restart %s" % ex
+                return "NoCommit 2 %s" % ex
+            return "NoCommit %s %s" % ("1" if term[0] == "ReturnStmt" else "0", ex)
+        if inner and inner[0].get("kind") == "CallExpr" and callee_name(inner[0]) == "__c11_atomic_thread_fence" \
                 and self.mode == "rmw":
             L = self.in_loop_state
             L["in_giveup"] = True
@@ -948,7 +1071,24 @@ class FnTrans:
         # atomic op macro used as a statement inside a give-up: record as extra
         at = self.single_atomic(s)
         if at is not None:
-            self.record_atomic_extra(at, env)
+            # bind the macro's own locals (`_v = (v)`) so that the operand can be evaluated
+            env2 = env.copy()
+
+            def bind(n):
+                if n.get("kind") == "VarDecl" and n.get("name") in ("_v",):
+                    init = [c for c in n.get("inner", []) if "Attr" not in c["kind"]]
+                    if init:
+                        l2 = []
+                        try:
+                            v = self.E(init[0], env2, l2)
+                            if not l2:
+                                env2.vars[n["id"]] = v
+                        except Unsupported:
+                            pass
+                for c in n.get("inner", []):
+                    bind(c)
+            bind(s)
+            self.record_atomic_extra(at, env2)
             return k(env)
         return self.block(inner, env, k)
 
@@ -1088,8 +1228,14 @@ class FnTrans:
             og = self.tr.cfg.get("globals", {})
             if nm in og:
                 return self.extra(("global", nm), og[nm], "oracle", cname=nm)
+            if self.loop_only and n["referencedDecl"].get("kind") in ("VarDecl", "ParmVarDecl"):
+                self.names.setdefault(vid, nm)
+                return self.extra(("free", vid), nm, "free")
             self.err(n, "reference to non-local variable %s" % nm)
         if v is None:
+            if self.loop_only:
+                nm = n["referencedDecl"].get("name")
+                return self.extra(("free", vid), nm, "free")
             self.err(n, "read of uninitialised variable %s" % n["referencedDecl"].get("name"))
         if isinstance(v, tuple):
             self.err(n, "struct value used as scalar")
@@ -1210,6 +1356,10 @@ class FnTrans:
                 return "0"
             return f
         root, path = self.member_root(n)
+        if root is not None and path and self.loop_only and root.get("kind") in ("VarDecl", "ParmVarDecl"):
+            pname = self.names.get(root["id"], root.get("name"))
+            return self.extra(("member", root["id"], path[-1]), "%s_%s" % (pname, path[-1]), "member", root=root["id"],
+                              field=path[-1], rootname=pname, type=self.T(n))
         if root is None or root.get("kind") != "ParmVarDecl" or not path:
             # struct-typed local variable returned from a call
             if root is not None and isinstance(env.vars.get(root["id"]), tuple):
@@ -1465,7 +1615,7 @@ class FnTrans:
             elif p["kind"] == "member":
                 a = argmap[p["root"]]
                 rd, path = self.member_root(a)
-                if rd is None or rd.get("kind") != "ParmVarDecl":
+                if rd is None or (rd.get("kind") != "ParmVarDecl" and not (self.loop_only and rd.get("kind") == "VarDecl")):
                     self.err(n, "argument for %s is not rooted at a parameter" % p["coq"])
                 pname = self.names.get(rd["id"], rd.get("name"))
                 cargs.append(self.extra(("member", rd["id"], p["field"]), "%s_%s" % (pname, p["field"]), "member",
@@ -1646,7 +1796,7 @@ def generate(cfgpath, outdir):
         tr.field_ids = all_fields
         for t in mod["targets"]:
             try:
-                tr.get(t.get("file", mod.get("file")), t["name"], t.get("mode", "fn"))
+                tr.get(t.get("file", mod.get("file")), t["name"], t.get("mode", "fn"), loop=t.get("loop", 0), alias=t.get("as"))
             except Unsupported as e:
                 errors.append("%s: %s" % (mod["name"], e))
         tr_all.append((mod, tr))
@@ -1687,7 +1837,7 @@ def generate(cfgpath, outdir):
                 out.append(info.text)
                 if info.mode == "rmw":
                     out.append("Definition %s_order : morder := %s.\n" % (info.coqname, info.order))
-            explicit = [t for t in mod["targets"] if t["name"] == fname]
+            explicit = [t for t in mod["targets"] if t.get("as", t["name"]) == fname]
             if explicit and (explicit[0].get("sites") or info.mode in ("sites", "rmw")):
                 ss = "; ".join("{| s_kind := %s; s_field := %d (* %s *); s_order := %s |}" %
                                (k, tr.field_id(f), f, o) for (_, k, f, o) in info.sites)
